@@ -197,7 +197,7 @@ func runC11(env *core.Env, ci any) {
 	shutdownSeq := 0
 	shutdownCh := make(chan struct{})
 	var returnedAt time.Duration = -1
-	var openAtReturn []string
+	var openAtReturn []*simnet.Conn
 	var activeAtReturn float64 = -1
 	go func() {
 		<-s.Done()
@@ -206,14 +206,14 @@ func runC11(env *core.Env, ci any) {
 		for _, ep := range n.Endpoints() {
 			st := ep.State()
 			if !st.Closed && !st.Dialer && st.HandedOut && strings.HasPrefix(st.Local, ipSUT+":") { // sockets the proxy accepted (not ones still in the listen backlog, not dialled ones)
-				openAtReturn = append(openAtReturn, st.ID)
+				openAtReturn = append(openAtReturn, ep)
 			}
 		}
 		activeAtReturn = gaugeSum(s, "forwarder_listener_cx_active")
 	}()
 	go func() {
 		time.Sleep(time.Duration(c.ShutdownMs) * time.Millisecond)
-		env.Sched.AddEvent("shutdown", func() {
+		env.Sched.AddLightEvent("shutdown", func() {
 			shutdownAt = now()
 			shutdownSeq = nextSeq()
 			s.RequestShutdown()
@@ -405,11 +405,26 @@ func runC11(env *core.Env, ci any) {
 		if d := returnedAt - shutdownAt; c.DrainS > 0 && d > time.Duration(c.DrainS+1)*time.Second {
 			env.Fail("shutdown-too-slow", feature, "Run returned %v after the shutdown request; the drain limit is %d s", d, c.DrainS)
 		}
-		if len(openAtReturn) > 0 {
-			env.Fail("shutdown-socket-leak", feature, "when Run returned (at %v, %v after the request) these proxy-side sockets were still open: %v", returnedAt, returnedAt-shutdownAt, openAtReturn)
+		// A connection handed out by the listener in the very step in which shutdown begins may not have been seen
+		// by Shutdown at all; it is "closed without service" by its own goroutine, which may get to run only after
+		// Run has returned. Such a socket is tolerated if it is closed within the same simulated instant.
+		var leaked []string
+		sameInstant := 0
+		for _, ep := range openAtReturn {
+			if st := ep.State(); !st.Closed || st.ClosedAt > returnedAt {
+				leaked = append(leaked, st.ID)
+			} else {
+				sameInstant++
+				env.Probe("accepted_as_shutdown_began_closed_unserved")
+			}
 		}
-		if activeAtReturn != 0 {
+		if len(leaked) > 0 {
+			env.Fail("shutdown-socket-leak", feature, "when Run returned (at %v, %v after the request) these proxy-side sockets were still open, and they were not closed in that instant either: %v", returnedAt, returnedAt-shutdownAt, leaked)
+		}
+		if activeAtReturn > float64(sameInstant) {
 			env.Fail("shutdown-gauge", feature, "listener_cx_active is %v when Run returns, want 0", activeAtReturn)
+		} else if g := gaugeSum(s, "forwarder_listener_cx_active"); g != 0 {
+			env.Fail("shutdown-gauge", feature, "listener_cx_active is %v after Run has returned and every client is done, want 0", g)
 		}
 		for i, r := range results {
 			tok := fmt.Sprintf("tk%dz", i+1)
